@@ -130,7 +130,7 @@ func genRaw(emit func(string), tier string, rng *Rng) {
 	}
 	n, maxLen := 2500, 8000
 	if thorough {
-		n, maxLen = 40000, 70000
+		n, maxLen = 100000, 70000
 	}
 	pool, kinds := fragInputs(rng, n, maxLen)
 	for i, b := range pool {
